@@ -32,7 +32,8 @@ Section Heal.
   | HDown (n : N)                       (* n stops: connections lost, connects refused *)
   | HUp (n : N)                         (* n listens again on the same address *)
   | HLay (lo hi n : N)                  (* slots lo..hi now belong to n (data moves with them) *)
-  | HWait.                              (* time passes: finished connections remove themselves, a pending refresh runs *)
+  | HWait                               (* time passes: finished connections remove themselves, a pending refresh runs *)
+  | HReqLost (s : sub).                 (* a request whose reply is lost: the node executes it, the connection dies before the answer *)
 
   Definition set_conn (s : hstate) (n : N) (c : option (N * bool)) (nid : N) (acc : N -> N) : hstate :=
     {| reach := reach s; hconn := fun x => if x =? n then c else hconn s x; nextid := nid; accepts := acc;
@@ -105,6 +106,13 @@ Section Heal.
     | HWait =>
       ({| reach := reach s; hconn := fun x => match hconn s x with Some (_, false) => None | c => c end; nextid := nextid s;
           accepts := accepts s; tbl := tbl s; hown := hown s; hdb := hdb s; refreshes := refreshes s |}, None)
+    | HReqLost sb =>
+      (* the proxy has nothing to answer with but an error, and does not send the command again (it may have taken
+         effect - here it has): the connection it was sent on is lost *)
+      match do_req s sb with
+      | (s', ROk _ n _ _) => (kill_conn s' n, Some (RErr (HExited n)))
+      | (s', RErr o) => (s', Some (RErr o))
+      end
     end.
 
   Fixpoint run_hops (s : hstate) (l : list hop) : hstate * list (option req_out) :=
